@@ -417,6 +417,23 @@ def timezone_check(ctx, loop, model_ok):
                 want = (local.strftime("%Y-%m-%d %H:%M:%S"), local.strftime("%Y-%m-%d"), local.strftime("%H:%M:%S"), local.strftime("%Y-%m-%d %H:%M:%S"))
                 if got != want:
                     problems.append(dict(problem=f"time_zone {z!r}: NOW()/CURDATE()/CURTIME() = {got!r}, expected {want!r}"))
+                # the zone takes effect wherever it is in force: for the statements behind the SET in the same text, and for
+                # the one statement a SET_VAR hint is attached to (and for that one only)
+                utc = FrozenDT.FIXED.replace(tzinfo=None)
+                want_utc = (utc.strftime("%Y-%m-%d %H:%M:%S"), utc.strftime("%Y-%m-%d"), utc.strftime("%H:%M:%S"), utc.strftime("%Y-%m-%d %H:%M:%S"))
+                for how, texts in (("in the same text as its SET", ["SET time_zone = '%s'; SELECT NOW(), CURDATE(), CURTIME(), CURRENT_TIMESTAMP()" % z]),
+                                   ("under a SET_VAR hint", ["SELECT /*+ SET_VAR(time_zone='%s') */ NOW(), CURDATE(), CURTIME(), CURRENT_TIMESTAMP()" % z,
+                                                             "SELECT NOW(), CURDATE(), CURTIME(), CURRENT_TIMESTAMP()"])):
+                    s2 = VSession(); s2._connection = FakeConn()
+                    try:
+                        rs = [tuple(loop.run_until_complete(s2.handle_query(t, {}))[0][0]) for t in texts]
+                    except Exception as e:  # noqa
+                        problems.append(dict(problem=f"time_zone {z!r} {how}: {type(e).__name__}: {e}"[:200]))
+                        continue
+                    if rs[0] != want:
+                        problems.append(dict(problem=f"time_zone {z!r} {how}: NOW()/CURDATE()/CURTIME() = {rs[0]!r}, expected {want!r}", sql=texts[0]))
+                    if len(rs) > 1 and rs[1] != want_utc:
+                        problems.append(dict(problem=f"after a statement hinted with time_zone {z!r}: NOW()/CURDATE()/CURTIME() = {rs[1]!r}, expected {want_utc!r}"))
     finally:
         msession.datetime = old
     return problems, dis, len(zones)
